@@ -1,7 +1,7 @@
 #!/bin/sh
-# usage: ./runall.sh <seed> [tier]  -- runs every claimed check (3 at a time), prints one summary line per property
+# usage: ./runall.sh <seed> [tier]  -- runs every claimed check (PAR at a time, default 3), prints one summary line per property
 SEED=${1:-0}; TIER=${2:-quick}
 cd "$(dirname "$0")" || exit 2
 mkdir -p work/runall
 /venv/bin/python -c "import json; [print(c['property_id']) for c in json.load(open('MANIFEST.json'))['checks']]" | \
-xargs -P3 -I{} sh -c "VERIF_SEED=$SEED ./check {} --tier $TIER > work/runall/{}.log 2>&1; echo \"{} exit=\$? \$(grep -c '^VIOLATION' work/runall/{}.log) violations, \$(grep -c '^KNOWN-FINDING' work/runall/{}.log) known, \$(grep 'done:' work/runall/{}.log | sed 's/.*wall=//')\""
+xargs -P${PAR:-3} -I{} sh -c "VERIF_SEED=$SEED ./check {} --tier $TIER > work/runall/{}.log 2>&1; echo \"{} exit=\$? \$(grep -c '^VIOLATION' work/runall/{}.log) violations, \$(grep -c '^KNOWN-FINDING' work/runall/{}.log) known, \$(grep 'done:' work/runall/{}.log | sed 's/.*wall=//')\""
